@@ -55,7 +55,11 @@ def run(ctx, replay):
                 dict(name="slow", G=12, N=60 if quick else 400, seed=s * 11 + 8, mode="slow", race=False),
                 dict(name="race-slow", G=12, N=60 if quick else 300, seed=s * 11 + 9, mode="free-slow", race=True),
                 dict(name="race-free", G=16 if quick else 64, N=60 if quick else 400, seed=s * 11 + 3, mode="free", race=True),
-                dict(name="race-barrier", G=8, N=40 if quick else 300, seed=s * 11 + 4, mode="barrier", race=True)]
+                dict(name="race-barrier", G=8, N=40 if quick else 300, seed=s * 11 + 4, mode="barrier", race=True),
+                # the rarely used flags on (package name of the caller, date, inherited attributes): a fresh process,
+                # so that whatever those paths initialise lazily is initialised by overlapping calls
+                dict(name="race-rare", G=16, N=40 if quick else 300, seed=s * 11 + 10, mode="free-slow+rare", race=True),
+                dict(name="rare", G=8, N=40 if quick else 300, seed=s * 11 + 12, mode="trace+rare", race=False)]
         if not quick:
             runs += [dict(name="trace2", G=64, N=100, seed=s * 11 + 5, mode="trace", race=False),
                      dict(name="race-free2", G=32, N=300, seed=s * 11 + 6, mode="free", race=True),
